@@ -281,10 +281,20 @@ def _call_hostile(args):
 
 def hostile_sample(fn, chunks):
     """the last job of every job kind (kind = leading string of a tuple job, else the function), at most HOSTILE_MAX_JOBS"""
+    def kind(c):
+        if isinstance(c, dict):
+            return ("d", c.get("kind"))
+        if isinstance(c, (tuple, list)) and len(c):
+            flags = tuple(x for x in c if isinstance(x, (str, bool)) or x is None)[:2]
+            if flags:
+                return ("t",) + flags
+            if isinstance(c[0], dict) and "kind" in c[0]:
+                return ("td", c[0]["kind"])
+        return ("f", fn.__name__)
+
     last = {}
     for c in chunks:
-        k = c[0] if isinstance(c, (tuple, list)) and len(c) and isinstance(c[0], str) else fn.__name__
-        last[k] = c
+        last[kind(c)] = c
     return list(last.values())[:HOSTILE_MAX_JOBS]
 
 
